@@ -53,6 +53,7 @@ class PoolGen:
         self.recipes: list[dict] = []
         self.by: dict[str, list[int]] = {}
         self.pts: dict[int, list[tuple[int, list]]] = {1: [], 2: [], 3: []}
+        self.script: list[dict] = []   # scripted first steps (directed coverage of ops random binding cannot satisfy)
 
     def add(self, k: str, a=None, kw=None, tag=None) -> int:
         slot = len(self.recipes)
@@ -350,6 +351,7 @@ class PoolGen:
         if rng.random() < 0.4:
             self.add("delta", [rng.choice([2, 3]), rng.choice([1, 2])], tag="tensor")
 
+        self.scenarios(d)
         # aliases: sharing chains exist from step 0
         n0 = len(self.recipes)
         for _ in range(rng.randint(2, 5)):
@@ -371,6 +373,68 @@ class PoolGen:
         return self.recipes
 
 
+def _scenarios(self, d):
+    """Hand-picked configurations for operations whose preconditions random binding practically never meets."""
+    rng = self.rng
+    if rng.random() > 0.2:
+        return
+
+    def pt(c, dt="f"):
+        return self.add("point", [list(c) + [1]], {"how": "hom", "dt": dt}, tag="scenpt")
+
+    if d == 2:
+        c = rng.randrange(3)
+        if c == 0:   # Transformation.from_points_and_conics: points on the conics
+            c1 = self.add("circle", [None, 1], tag="conic")
+            ctr = pt((0, 2), "i")
+            c2 = self.add("circle", [ctr, 2], tag="conic")
+            ps = [pt(x, "i") for x in ((0, -1), (0, 1), (1, 0), (0, 0), (0, 4), (2, 2))]
+            self.script.append({"op": "from_points_and_conics", "args": ps + [c1, c2]})
+            self.script.append({"op": "q_tangent", "args": [c1, ps[0]]})
+        elif c == 1:  # Conic.from_tangent / from_crossratio / from_foci
+            a, b, c_, dd, e = (pt(x) for x in ((-1.5, 0.5), (0, -1), (1.5, 0.5), (1.5, -0.5), (0, 1)))
+            l = self.add("line", [[0, 1, -1]], {"dt": "i"}, tag="line2")
+            self.script.append({"op": "conic_from_tangent", "args": [l, a, b, c_, dd]})
+            self.script.append({"op": "conic_from_crossratio", "args": [e, b, c_, dd], "p": {"cr": 2}})
+            f1, f2, bb = pt((0, 2)), pt((0, -2)), pt((0, 3))
+            self.script.append({"op": "conic_from_foci", "args": [f1, f2, bb]})
+        else:         # four concurrent lines / a harmonic range
+            o = (rng.randint(-2, 2), rng.randint(-2, 2))
+            ls = []
+            for dx, dy in ((1, 0), (0, 1), (1, 1), (1, -1)):
+                ls.append(self.add("line", [[dy, -dx, dx * o[1] - dy * o[0]]], {"dt": "i"}, tag="line2"))
+            self.script.append({"op": "crossratio_lines", "args": ls})
+            self.script.append({"op": "is_concurrent4", "args": ls})
+            ps = [pt((k, 2 * k + 1), "i") for k in (0, 1, 2, 4)]
+            self.script.append({"op": "crossratio_pts", "args": ps})
+            self.script.append({"op": "harmonic_set", "args": ps[:3]})
+    else:
+        c = rng.randrange(2)
+        if c == 0:   # Transformation.from_points in 3D: five points in general position and their images
+            src = [(0, 0, 0), (1, 0, 0), (0, 1, 0), (0, 0, 1), (1, 1, 1)]
+            sh = [rng.randint(-2, 2) for _ in range(3)]
+            k = rng.choice([1, 2, 3])
+            a = [pt(x, "i") for x in src]
+            b = [pt(tuple(k * x[i] + sh[i] for i in range(3)), "i") for x in src]
+            self.script.append({"op": "from_points3", "args": a + b})
+        else:        # five planes through one point; four coaxial planes
+            o = [rng.randint(-2, 2) for _ in range(3)]
+            pls = []
+            for nrm in ((1, 0, 0), (0, 1, 0), (0, 0, 1), (1, 1, 0), (1, 1, 1)):
+                pls.append(self.add("plane", [list(nrm) + [-sum(nrm[i] * o[i] for i in range(3))]], {"dt": "i"},
+                                    tag="plane"))
+            self.script.append({"op": "is_coplanar_planes", "args": pls})
+            ax = []
+            for nrm in ((1, 0, 0), (0, 1, 0), (1, 1, 0), (1, -1, 0)):
+                ax.append(self.add("plane", [list(nrm) + [-sum(nrm[i] * o[i] for i in range(3))]], {"dt": "i"},
+                                   tag="plane"))
+            self.script.append({"op": "crossratio_planes", "args": ax})
+            self.script.append({"op": "angle_ee", "args": ax[:2]})
+
+
+PoolGen.scenarios = _scenarios
+
+
 def _nested(rng, shape):
     if len(shape) == 1:
         return [rng.randint(-3, 3) for _ in range(shape[0])]
@@ -387,4 +451,7 @@ def _det(m):
 
 
 def gen_pool(rng: random.Random, cfg: dict) -> list[dict]:
-    return PoolGen(rng, cfg).generate()
+    g = PoolGen(rng, cfg)
+    recipes = g.generate()
+    cfg["script"] = g.script
+    return recipes
